@@ -563,3 +563,209 @@ Print Assumptions C18_compare_v0_wrong_order.
 Print Assumptions C18_intersect_v0_refuted.
 Print Assumptions C18_mode_sum_v0_refuted.
 Print Assumptions C18_go_time_mode_out_of_band_refuted.
+
+(* ================= final wave: modepb.Sum over Go's time.Time; the heap model of Sum ================= *)
+From SC Require Import Timeline.GoTimeSumProofs.
+
+(* the loop of modepb.Sum that tracks earliest / latest with Before / After on Go's (ext, nsec) representation leaves,
+   for EVERY list of modes whose start times are valid and inside the band, a pair that denotes the minimum / maximum
+   of the denoted start times (invariant of the loop, induction over the list) *)
+Theorem C18_go_time_sum_starts_in_band : forall ms, forallb start_in_band ms = true ->
+  match starts ms with
+  | [] => sum_starts_g ms = None
+  | s0 :: rest => exists E L, sum_starts_g ms = Some (E, L) /\ good_time E /\ good_time L /\
+                              tval E = minZ rest s0 /\ tval L = maxZ rest s0
+  end.
+Proof. exact sum_starts_g_in_band. Qed.
+Print Assumptions C18_go_time_sum_starts_in_band.
+
+(* hence modepb.Sum over Go's representation (what KGoModeSum compares the code with) IS the function of Wrap.v that
+   C18_mode_sum / C18_mode_sum_exact_guard are about (was: "model agreement only, not proved") *)
+Theorem C18_go_time_mode_sum_in_band : forall ms, forallb start_in_band ms = true -> mode_sum_g ms = mode_sum_w ms.
+Proof. exact mode_sum_g_in_band. Qed.
+Print Assumptions C18_go_time_mode_sum_in_band.
+
+(* soundness of the judge for the kind KGoModeSum (C18_guard answers false for it, so C18_judge_sound says nothing
+   there): an observation that agrees with the Go-representation model, on modes inside the band and inside the guard
+   of KModeSum, satisfies the pointwise oracle KModeSum is judged by *)
+Theorem C18_go_mode_sum_judge_sound : forall ms obs,
+  forallb start_in_band ms = true -> C18_guard (KModeSum ms obs) = true ->
+  agrees (KGoModeSum ms obs) = true -> C18_ok (KModeSum ms obs) = true.
+Proof.
+  intros ms obs B G A. apply C18_judge_sound; [exact G|].
+  change (option_eqb mode_eqb obs (mode_sum_g ms) = true) in A.
+  change (option_eqb mode_eqb obs (mode_sum_w ms) = true).
+  rewrite <- (mode_sum_g_in_band ms B). exact A.
+Qed.
+Print Assumptions C18_go_mode_sum_judge_sound.
+
+(* outside the band it is false: a straddling pair of valid start times *)
+Theorem C18_go_time_mode_sum_out_of_band_refuted :
+  exists ms, forallb (fun m => match mstart m with Some s => ts_valid s | None => false end) ms = true /\
+             forallb start_in_band ms = false /\
+             option_eqb mode_eqb (mode_sum_g ms) (mode_sum_w ms) = false.
+Proof. exact mode_sum_g_out_of_band_refuted. Qed.
+Print Assumptions C18_go_time_mode_sum_out_of_band_refuted.
+
+Example C18_nonvacuous_go_mode_sum :
+  let ms := [mkMode (Some (mkTs 5 7)) [mkSeg 3 (Some 5); mkSeg 1 None]; mkMode None [mkSeg 2 (Some 4)];
+             mkMode (Some (mkTs 5 2)) [mkSeg 4 (Some 9)]] in
+  let r := Some (mkMode (Some (mkTs 5 2)) [mkSeg 4 (Some 5); mkSeg 9 (Some 4); mkSeg 3 (Some 1); mkSeg 1 None]) in
+  forallb start_in_band ms = true /\ C18_guard (KModeSum ms r) = true /\ agrees (KGoModeSum ms r) = true /\
+  mode_sum_g ms = r.
+Proof. vm_compute. repeat split. Qed.
+
+(* ---- the heap model of segmentpb.Sum computes the list of the value model (was: tied by the correspondence only) ---- *)
+From SC Require Import Timeline.SumRefine.
+
+(* append under ANY growth policy: the pointers of the result are those of the slice followed by the new one, whether
+   the write went in place (len < cap) or into a new array; no segment object is touched *)
+Theorem C18_append_on_heap : forall g s p h, slice_in h s ->
+  slice_in (snd (append g s p h)) (fst (append g s p h)) /\
+  slice_ptrs (snd (append g s p h)) (fst (append g s p h)) = slice_ptrs h s ++ [p] /\
+  cells (snd (append g s p h)) = cells h.
+Proof. exact append_spec. Qed.
+Print Assumptions C18_append_on_heap.
+
+(* for EVERY heap, every list of argument slices (any offsets, capacities, aliasing between them, even dangling ones)
+   and every growth policy: the slice Sum returns, read out of the exit heap, is Segment.sum of the arguments read out
+   of the entry heap.  Induction over the sorted edges with the invariant sum_res_inv (the in-place writes
+   `result[len-1].Magnitude += delta` / `.Length = ...` only ever hit the segment appended last, which is newer than
+   every finished one). *)
+Theorem C18_sum_own_refines : forall g ss h,
+  read_slice (snd (sum_own g ss h)) (fst (sum_own g ss h)) = sum (map (read_slice h) ss).
+Proof. exact sum_own_refines. Qed.
+Print Assumptions C18_sum_own_refines.
+
+(* headline for Sum on the heap: the result reads as the pointwise sum of the step functions of the arguments AND every
+   location of the entry heap is intact, so every readable argument reads the same afterwards *)
+Theorem C18_sum_on_heap : forall g ss h t,
+  forallb segs_wf (map (read_slice h) ss) = true -> (0 <= sumZ (map tail_level (map (read_slice h) ss)))%Z ->
+  Forall (slice_ok h) ss ->
+  let r := fst (sum_own g ss h) in let h' := snd (sum_own g ss h) in
+  val (read_slice h' r) t = sumZ (map (fun l => val l t) (map (read_slice h) ss)) /\
+  heap_ext h h' /\ Forall (fun s => read_slice h' s = read_slice h s) ss.
+Proof.
+  intros g ss h t Hwf Ht Hok. cbv zeta. rewrite (sum_own_refines g ss h).
+  split; [apply C18_sum_is_pointwise_exact_guard; assumption|].
+  split; [apply sum_never_writes_args|].
+  eapply Forall_impl; [|exact Hok]. cbv beta. intros s Hs. apply ext_read_slice; [apply sum_never_writes_args|exact Hs].
+Qed.
+Print Assumptions C18_sum_on_heap.
+
+Example C18_nonvacuous_sum_own :
+  let '(h0, ss) := args_heap [(1%nat, 2%nat, [mkSeg 2 (Some 3); mkSeg 5 None]); (0%nat, 1%nat, [mkSeg 1 (Some 1); mkSeg 4 (Some 4)])] in
+  Forall (slice_ok h0) ss /\
+  read_slice (snd (sum_own no_growth ss h0)) (fst (sum_own no_growth ss h0)) =
+    [mkSeg 3 (Some 1); mkSeg 6 (Some 2); mkSeg 9 (Some 2); mkSeg 5 None].
+Proof. vm_compute. repeat split; repeat constructor. Qed.
+
+(* ---- ... and of modepb.Sum (was: tied by the correspondence only) ---- *)
+From SC Require Import Timeline.ModeSumRefine.
+
+(* the slice Shift returns (the argument itself, a sub-slice of it, nil, or a new array) is a readable slice of the
+   exit heap: what lets the results of earlier Shifts be read after later ones *)
+Theorem C18_shift_result_readable : forall d s h, slice_ok h s ->
+  slice_ok (snd (shift_own d s h)) (fst (shift_own d s h)).
+Proof. exact shift_own_ok. Qed.
+Print Assumptions C18_shift_result_readable.
+
+(* for EVERY heap in which the argument modes' slices are readable, every list of argument modes (the same mode twice,
+   modes sharing one backing array, any capacities) and every growth policy: the mode modepb.Sum returns, read out of
+   the exit heap, is Mode.mode_sum of the arguments read out of the entry heap *)
+Theorem C18_mode_sum_own_refines : forall g ms h, Forall (fun m => slice_ok h (snd (mcell h m))) ms ->
+  option_map (read_mode (snd (mode_sum_own g ms h))) (fst (mode_sum_own g ms h)) = mode_sum (map (read_mode h) ms).
+Proof. exact mode_sum_own_refines. Qed.
+Print Assumptions C18_mode_sum_own_refines.
+
+(* headline for modepb.Sum on the heap: value of the result, frame, and the arguments read the same afterwards *)
+Theorem C18_mode_sum_on_heap : forall g ms h,
+  Forall (fun m => (m < List.length (mcells h))%nat /\ slice_ok h (snd (mcell h m))) ms ->
+  let r := fst (mode_sum_own g ms h) in let h' := snd (mode_sum_own g ms h) in
+  option_map (read_mode h') r = mode_sum (map (read_mode h) ms) /\
+  heap_ext h h' /\ Forall (fun m => read_mode h' m = read_mode h m) ms.
+Proof.
+  intros g ms h F. cbv zeta. split; [|split].
+  - apply mode_sum_own_refines. eapply Forall_impl; [|exact F]. cbv beta. intros m [_ H]. exact H.
+  - apply mode_sum_never_writes_args.
+  - eapply Forall_impl; [|exact F]. cbv beta. intros m [Hm Hs].
+    apply ext_read_mode; [apply mode_sum_never_writes_args|exact Hm|exact Hs].
+Qed.
+Print Assumptions C18_mode_sum_on_heap.
+
+Example C18_nonvacuous_mode_sum_own :
+  let '(h0, ms) := margs_heap [(1%nat, 2%nat, Some (mkTs 5 7), [mkSeg 3 (Some 5); mkSeg 1 None]);
+                               (0%nat, 1%nat, None, [mkSeg 2 (Some 4)]);
+                               (2%nat, 0%nat, Some (mkTs 5 2), [mkSeg 4 (Some 9)])] in
+  Forall (fun m => (m < List.length (mcells h0))%nat /\ slice_ok h0 (snd (mcell h0 m))) ms /\
+  option_map (read_mode (snd (mode_sum_own no_growth ms h0))) (fst (mode_sum_own no_growth ms h0)) =
+    Some (mkMode (Some (mkTs 5 2)) [mkSeg 4 (Some 5); mkSeg 9 (Some 4); mkSeg 3 (Some 1); mkSeg 1 None]).
+Proof. vm_compute. repeat split; repeat constructor. Qed.
+
+(* ---- the int64 Sum inside modepb.Sum (was an assumption: "durations inside the segmentpb.Sum call made by
+        modepb.Sum do not overflow int64") ---- *)
+From SC Require Import Timeline.MachineModeSum.
+
+(* a shifted list is at most |d| longer, for every list and every d of either sign *)
+Theorem C18_shift_total_length : forall d l, segs_wf l = true -> total_len (shift d l) <= Z.abs d + total_len l.
+Proof. exact total_len_shift. Qed.
+Print Assumptions C18_shift_total_length.
+
+(* hence modepb.Sum with the int64 Sum inside (mode_sum_ww: saturating Sub, wrapping Shift AND wrapping Sum) is the
+   model the code is compared with (mode_sum_w) and the integer model the pointwise law is about (mode_sum), inside the
+   guard of KModeSum plus "every list's total length fits an int64" (implied by sum_small when a start time exists) *)
+Theorem C18_machine_arithmetic_mode_sum_inner : forall ms,
+  forallb (fun m => lens_ok_b (msegs m)) ms = true -> sum_small ms = true ->
+  mode_sum_ww ms = mode_sum_w ms /\ mode_sum_ww ms = mode_sum ms.
+Proof.
+  intros ms L G. pose proof (mode_sum_ww_eq ms L G) as E. split; [exact E|]. rewrite E. apply mode_sum_w_eq. exact G.
+Qed.
+Print Assumptions C18_machine_arithmetic_mode_sum_inner.
+
+Theorem C18_mode_sum_inner_overflow_refuted :
+  exists ms, forallb (fun m => segs_wf (msegs m)) ms = true /\ sum_small ms = true /\
+             forallb (fun m => lens_ok_b (msegs m)) ms = false /\
+             option_eqb mode_eqb (mode_sum_ww ms) (mode_sum_w ms) = false.
+Proof. exact mode_sum_ww_overflow_refuted. Qed.
+Print Assumptions C18_mode_sum_inner_overflow_refuted.
+
+Example C18_nonvacuous_mode_sum_inner :
+  let ms := [mkMode (Some (mkTs 5 7)) [mkSeg 3 (Some 5); mkSeg 1 None]; mkMode None [mkSeg 2 (Some 4)];
+             mkMode (Some (mkTs 5 2)) [mkSeg 4 (Some 9223372036854775000)]] in
+  forallb (fun m => lens_ok_b (msegs m)) ms = true /\ sum_small ms = true /\
+  mode_sum_ww ms = Some (mkMode (Some (mkTs 5 2))
+    [mkSeg 4 (Some 5); mkSeg 9 (Some 4); mkSeg 7 (Some 1); mkSeg 5 (Some 9223372036854774990); mkSeg 1 None]).
+Proof. exact mode_sum_ww_nonvacuous. Qed.
+
+(* ---- segmentpb.Cut on the heap, and the six operations together ---- *)
+Theorem C18_seg_cut_own_refines : forall d p h, (p < List.length (cells h))%nat ->
+  heap_ext h (snd (cut_own d p h)) /\
+  (option_map (cell (snd (cut_own d p h))) (fst (fst (fst (cut_own d p h)))),
+   option_map (cell (snd (cut_own d p h))) (snd (fst (fst (cut_own d p h)))),
+   snd (fst (cut_own d p h))) = cut_seg d (cell h p).
+Proof. exact cut_own_refines. Qed.
+Print Assumptions C18_seg_cut_own_refines.
+
+(* every list- or mode-returning operation of the heap model, read out of its exit heap, is the operation of the value
+   model on the arguments read out of the entry heap (for every heap with readable arguments, every capacity /
+   aliasing, every growth policy) *)
+Theorem C18_heap_model_refines_value_model :
+  (forall d s h, slice_ok h s -> read_slice (snd (shift_own d s h)) (fst (shift_own d s h)) = shift d (read_slice h s)) /\
+  (forall d p h, (p < List.length (cells h))%nat ->
+     (option_map (cell (snd (cut_own d p h))) (fst (fst (fst (cut_own d p h)))),
+      option_map (cell (snd (cut_own d p h))) (snd (fst (fst (cut_own d p h)))),
+      snd (fst (cut_own d p h))) = cut_seg d (cell h p)) /\
+  (forall g ss h, read_slice (snd (sum_own g ss h)) (fst (sum_own g ss h)) = sum (map (read_slice h) ss)) /\
+  (forall g t m h b a o h', (m < List.length (mcells h))%nat -> slice_ok h (snd (mcell h m)) ->
+     mode_cut_own g t m h = (b, a, o, h') ->
+     (option_map (read_mode h') b, option_map (read_mode h') a, o) = mode_cut t (read_mode h m)) /\
+  (forall g d m h, (m < List.length (mcells h))%nat -> slice_ok h (snd (mcell h m)) ->
+     read_mode (snd (mode_shift_own g d m h)) (fst (mode_shift_own g d m h)) = mode_shift d (read_mode h m)) /\
+  (forall g ms h, Forall (fun m => slice_ok h (snd (mcell h m))) ms ->
+     option_map (read_mode (snd (mode_sum_own g ms h))) (fst (mode_sum_own g ms h)) = mode_sum (map (read_mode h) ms)).
+Proof.
+  split; [exact shift_own_refines|]. split; [intros d p h Hp; exact (proj2 (cut_own_refines d p h Hp))|].
+  split; [exact sum_own_refines|]. split; [exact mode_cut_own_refines|]. split; [exact mode_shift_own_refines|].
+  exact mode_sum_own_refines.
+Qed.
+Print Assumptions C18_heap_model_refines_value_model.
